@@ -14,6 +14,7 @@
 //! deadlock, reported with the wait-for relation.
 
 use std::cell::Cell;
+use std::sync::atomic::{AtomicBool, AtomicUsize, Ordering};
 use std::sync::{Condvar, Mutex};
 
 use crate::plan::Sched;
@@ -25,6 +26,9 @@ enum TState {
     Runnable,
     /// waiting for a shadow resource
     Blocked(&'static str),
+    /// was found asleep in the kernel (a real lock, a channel) while it held the baton; the
+    /// baton went elsewhere; becomes Runnable again when the thread reaches its next seam
+    ExtBlocked,
     Finished,
 }
 
@@ -55,21 +59,32 @@ struct Engine {
     alloc_yields: u64,
     /// a caller thread that just finished and waits to be joined by the coordinator
     exiting: Option<usize>,
+    /// kernel thread ids of the simulated threads (0 = unknown yet)
+    os_tids: Vec<i32>,
+    /// how many times a baton holder was found blocked for real
+    ext_blocks: u64,
 }
 
 static ENGINE: Mutex<Option<Engine>> = Mutex::new(None);
 static CV: Condvar = Condvar::new();
+/// mirror of `Engine::turn` for cheap checks outside the engine lock
+static TURN: AtomicUsize = AtomicUsize::new(0);
+/// set once a real block was seen in this execution: from then on every allocation of a
+/// call checks whether its thread still holds the baton
+static ARMED_ALL: AtomicBool = AtomicBool::new(false);
 
 thread_local! {
     /// simulated-thread id of this OS thread (0 = coordinator / not simulated)
     pub static TID: Cell<usize> = const { Cell::new(0) };
     /// allocation-point preemption: open only while library code of a call runs on this thread
-    static GATE: Cell<bool> = const { Cell::new(false) };
+    /// 0 closed (harness code or no call), 1 armed (library code of a call: baton checks
+    /// only), 2 open (also allocation-point preemption)
+    static GATE: Cell<u8> = const { Cell::new(0) };
     static COUNTDOWN: Cell<u64> = const { Cell::new(u64::MAX) };
 }
 
 /// Restores the allocation gate of this thread when dropped.
-pub struct GateGuard(bool);
+pub struct GateGuard(u8);
 
 impl Drop for GateGuard {
     fn drop(&mut self) {
@@ -80,7 +95,7 @@ impl Drop for GateGuard {
 /// Harness code entered from library code (hook callback, logger, panic hook) closes the
 /// gate: it takes harness locks, and a scheduling point under one would block the others.
 pub fn gate_close() -> GateGuard {
-    GateGuard(GATE.try_with(|g| g.replace(false)).unwrap_or(false))
+    GateGuard(GATE.try_with(|g| g.replace(0)).unwrap_or(0))
 }
 
 /// Open the gate for the library code of one call (threads engine only, and only when the
@@ -98,7 +113,8 @@ pub fn gate_open_for_call() -> GateGuard {
             _ => 0,
         }
     };
-    GateGuard(GATE.with(|g| g.replace(mean > 0)))
+    let armed = tid() != 0 && active();
+    GateGuard(GATE.with(|g| g.replace(if mean > 0 { 2 } else if armed { 1 } else { 0 })))
 }
 
 /// Called by the global allocator before every allocation. With the gate open, every
@@ -106,28 +122,42 @@ pub fn gate_open_for_call() -> GateGuard {
 /// can be preempted almost anywhere in library code, not only at lock events and log sites.
 #[inline]
 pub fn alloc_point() {
-    let fire = GATE
-        .try_with(|g| {
-            if !g.get() {
-                return false;
+    let gate = GATE.try_with(|g| g.get()).unwrap_or(0);
+    if gate == 0 {
+        return;
+    }
+    // a thread that was found blocked for real and has woken up runs without the baton:
+    // stop it at its first allocation
+    if ARMED_ALL.load(Ordering::Relaxed) {
+        let me = tid();
+        if me != 0 && TURN.load(Ordering::SeqCst) != me {
+            let _closed = gate_close();
+            rejoin(me);
+        }
+    }
+    if gate < 2 {
+        return;
+    }
+    let fire = COUNTDOWN
+        .try_with(|c| {
+            let v = c.get();
+            if v > 1 {
+                c.set(v - 1);
+                false
+            } else {
+                true
             }
-            COUNTDOWN
-                .try_with(|c| {
-                    let v = c.get();
-                    if v > 1 {
-                        c.set(v - 1);
-                        false
-                    } else {
-                        true
-                    }
-                })
-                .unwrap_or(false)
         })
         .unwrap_or(false);
     if fire {
         let _closed = gate_close();
         alloc_sched_point();
     }
+}
+
+/// A thread that lost the baton while it was asleep in the kernel comes back.
+fn rejoin(me: usize) {
+    drop(enter(me));
 }
 
 fn alloc_sched_point() {
@@ -178,6 +208,7 @@ pub struct Stats {
     pub switches: u64,
     pub rle: Vec<(u32, u32)>,
     pub dead: Option<String>,
+    pub ext_blocks: u64,
 }
 
 pub fn start(sched: &Sched, nthreads: usize, alloc_mean: u64) {
@@ -202,7 +233,11 @@ pub fn start(sched: &Sched, nthreads: usize, alloc_mean: u64) {
         alloc_mean,
         alloc_yields: 0,
         exiting: None,
+        os_tids: vec![0; nthreads + 1],
+        ext_blocks: 0,
     });
+    TURN.store(0, Ordering::SeqCst);
+    ARMED_ALL.store(false, Ordering::SeqCst);
     // the coordinator is not a simulated caller
     if let Some(e) = lock().as_mut() {
         e.states[0] = TState::Finished;
@@ -218,10 +253,16 @@ pub fn stop() -> Stats {
         switches: e.switches,
         rle: e.rle.clone(),
         dead: e.dead.clone(),
+        ext_blocks: e.ext_blocks,
     }
 }
 
 impl Engine {
+    fn set_turn(&mut self, t: usize) {
+        self.turn = t;
+        TURN.store(t, Ordering::SeqCst);
+    }
+
     fn wanted(&mut self) -> Option<usize> {
         while self.pos.0 < self.explicit.len() {
             let (t, n) = self.explicit[self.pos.0];
@@ -300,13 +341,21 @@ impl Engine {
     }
 }
 
-/// Park until it is this thread's turn. Never returns once the execution is dead.
-fn wait_turn(me: usize, mut g: std::sync::MutexGuard<'static, Option<Engine>>) {
+/// Park until it is this thread's turn; returns with the engine lock held. Never returns
+/// once the execution is dead.
+fn wait_turn(
+    me: usize,
+    mut g: std::sync::MutexGuard<'static, Option<Engine>>,
+) -> std::sync::MutexGuard<'static, Option<Engine>> {
     loop {
         {
-            let e = g.as_ref().expect("engine");
+            let e = g.as_mut().expect("engine");
+            // whoever is here is awake: a thread that was taken for blocked is runnable again
+            if e.states.get(me) == Some(&TState::ExtBlocked) {
+                e.states[me] = TState::Runnable;
+            }
             if e.dead.is_none() && e.turn == me {
-                return;
+                return g;
             }
         }
         g = match CV.wait(g) {
@@ -316,13 +365,28 @@ fn wait_turn(me: usize, mut g: std::sync::MutexGuard<'static, Option<Engine>>) {
     }
 }
 
+/// Entry of every seam function: with the engine lock held, make sure the calling thread
+/// is known to be awake and holds the baton (it may have lost it while asleep in the kernel).
+fn enter(me: usize) -> std::sync::MutexGuard<'static, Option<Engine>> {
+    let g = lock();
+    let must_wait = match g.as_ref() {
+        Some(e) if e.active => e.turn != me || e.states.get(me) == Some(&TState::ExtBlocked),
+        _ => false,
+    };
+    if must_wait {
+        wait_turn(me, g)
+    } else {
+        g
+    }
+}
+
 fn hand_over(me: usize, mut g: std::sync::MutexGuard<'static, Option<Engine>>, next: usize) {
     if next == me {
         return;
     }
-    g.as_mut().unwrap().turn = next;
+    g.as_mut().unwrap().set_turn(next);
     CV.notify_all();
-    wait_turn(me, g);
+    drop(wait_turn(me, g));
 }
 
 fn die(mut g: std::sync::MutexGuard<'static, Option<Engine>>, msg: String) -> ! {
@@ -331,7 +395,7 @@ fn die(mut g: std::sync::MutexGuard<'static, Option<Engine>>, msg: String) -> ! 
         if e.dead.is_none() {
             e.dead = Some(msg);
         }
-        e.turn = 0;
+        e.set_turn(0);
     }
     CV.notify_all();
     // this thread is part of a dead execution: park for good (the process is about to exit)
@@ -349,7 +413,7 @@ pub fn sched_point() {
     if me == 0 {
         return;
     }
-    let mut g = lock();
+    let mut g = enter(me);
     let Some(e) = g.as_mut() else { return };
     if !e.active {
         return;
@@ -367,82 +431,173 @@ pub fn sched_point() {
 /// First thing a simulated thread does: wait to be scheduled for the first time.
 pub fn thread_start(me: usize) {
     set_tid(me);
-    let g = lock();
-    wait_turn(me, g);
+    let mut g = lock();
+    if let Some(e) = g.as_mut() {
+        e.os_tids[me] = unsafe { libc::syscall(libc::SYS_gettid) } as i32;
+    }
+    drop(wait_turn(me, g));
 }
 
 /// Last thing a simulated thread does.
 pub fn thread_finish() {
     let me = tid();
-    let mut g = lock();
+    let mut g = enter(me);
     let e = g.as_mut().expect("engine");
     e.states[me] = TState::Finished;
     // The baton goes to the coordinator, which joins this OS thread (so that its
     // thread-local destructors have run) before anybody else continues: a caller thread
     // exiting while others are mid-compile is one atomic, scheduled step.
     e.exiting = Some(me);
-    e.turn = 0;
+    e.set_turn(0);
     CV.notify_all();
 }
 
-/// Coordinator: hand the baton to the first thread, then wait until every simulated thread
+/// Is the kernel thread asleep in a futex wait? (Linux: state `S` and system call 202.)
+fn asleep_in_futex(os_tid: i32) -> bool {
+    if os_tid == 0 {
+        return false;
+    }
+    let stat = match std::fs::read_to_string(format!("/proc/self/task/{os_tid}/stat")) {
+        Ok(s) => s,
+        Err(_) => return false,
+    };
+    // "<pid> (<comm>) <state> ..." — comm may contain spaces, so look after the last ')'
+    let state = stat.rsplit(')').next().and_then(|r| r.trim_start().chars().next());
+    if state != Some('S') {
+        return false;
+    }
+    match std::fs::read_to_string(format!("/proc/self/task/{os_tid}/syscall")) {
+        Ok(s) => s.split_whitespace().next() == Some("202"),
+        Err(_) => false,
+    }
+}
+
+/// Coordinator: hand the baton to the first thread, then watch until every simulated thread
 /// finished or the execution died. `join` is called with the id of each thread that
 /// finished, while nobody else runs.
+///
+/// The coordinator also notices a baton holder that is asleep in the kernel — blocked on a
+/// real lock that a parked thread holds, or waiting for a thread of the library's own. That
+/// thread cannot hand the baton over itself; the coordinator marks it `ExtBlocked` and lets
+/// the scheduler pick somebody else. When the sleeper wakes up it runs without the baton
+/// until its next seam (its next allocation, since `ARMED_ALL` is set from then on), where
+/// it stops and queues up again. Executions in which this happened are flagged: their
+/// schedule is no longer a pure function of the plan.
 pub fn coordinate(mut join: impl FnMut(usize)) {
-    let mut g = lock();
     {
+        let mut g = lock();
         let e = g.as_mut().expect("engine");
         match e.decide(None) {
-            Some(first) => e.turn = first,
+            Some(first) => e.set_turn(first),
             None => return,
         }
     }
     CV.notify_all();
+    let mut last_progress: (usize, u64) = (usize::MAX, 0);
+    // real monotonic time (the libc symbol is the simulated clock in this process)
+    let real_ms = || -> u64 {
+        let mut ts = libc::timespec { tv_sec: 0, tv_nsec: 0 };
+        unsafe { libc::syscall(libc::SYS_clock_gettime, libc::CLOCK_MONOTONIC, &mut ts as *mut libc::timespec) };
+        ts.tv_sec as u64 * 1000 + ts.tv_nsec as u64 / 1_000_000
+    };
+    let mut asleep_since: Option<u64> = None;
+    let mut all_asleep_since: Option<u64> = None;
     loop {
-        let exiting = {
-            let e = g.as_mut().unwrap();
-            if e.dead.is_some() {
+        // poll with a real (relative) sleep: timed waits on a condvar would compute their
+        // deadline from the simulated clock
+        unsafe { libc::usleep(300) };
+        let mut g = lock();
+        let e = g.as_mut().unwrap();
+        if e.dead.is_some() {
+            return;
+        }
+        if e.turn == 0 {
+            if let Some(t) = e.exiting.take() {
+                drop(g);
+                join(t);
+                g = lock();
+                let e = g.as_mut().unwrap();
+                match e.decide(None) {
+                    Some(next) => {
+                        e.set_turn(next);
+                        CV.notify_all();
+                    }
+                    None => {
+                        if e.states.iter().all(|s| *s == TState::Finished) {
+                            return;
+                        }
+                        if !e.states.iter().any(|s| *s == TState::ExtBlocked) {
+                            let msg = e.describe_deadlock();
+                            e.dead = Some(msg);
+                            return;
+                        }
+                        // somebody asleep in the kernel may still come back
+                    }
+                }
+                continue;
+            }
+            if e.states.iter().all(|s| *s == TState::Finished) {
                 return;
             }
-            if e.turn == 0 {
-                e.exiting.take()
-            } else {
-                None
+            // the baton is here because nobody was runnable: has a sleeper come back?
+            if let Some(next) = e.decide(None) {
+                e.set_turn(next);
+                CV.notify_all();
+                all_asleep_since = None;
+                continue;
             }
-        };
-        if let Some(t) = exiting {
-            drop(g);
-            join(t);
-            g = lock();
-            let e = g.as_mut().unwrap();
-            match e.decide(None) {
-                Some(next) => {
-                    e.turn = next;
-                    CV.notify_all();
-                }
-                None => {
-                    if e.states.iter().any(|s| matches!(s, TState::Blocked(_))) {
-                        let msg = e.describe_deadlock();
-                        e.dead = Some(msg);
-                        return;
-                    }
-                    if e.states.iter().all(|s| *s == TState::Finished) {
-                        return;
-                    }
-                }
+            // Nobody can run and the rest is asleep in the kernel. If that lasts, the callers
+            // wait for each other through real locks: a deadlock of the library itself.
+            let t0 = *all_asleep_since.get_or_insert_with(&real_ms);
+            if real_ms().saturating_sub(t0) >= 5_000 {
+                let who: Vec<String> = e
+                    .states
+                    .iter()
+                    .enumerate()
+                    .filter(|(_, s)| **s != TState::Finished)
+                    .map(|(i, s)| format!("t{i} {s:?}"))
+                    .collect();
+                e.dead = Some(format!(
+                    "deadlock: no caller can run and the unfinished ones have been asleep in the kernel (real locks or channels) for 5 s: {}",
+                    who.join(", ")
+                ));
+                return;
             }
             continue;
         }
-        {
-            let e = g.as_ref().unwrap();
-            if e.turn == 0 && e.states.iter().all(|s| *s == TState::Finished) {
-                return;
+        // somebody holds the baton: is it making progress?
+        let holder = e.turn;
+        let progress = (holder, e.steps);
+        if progress != last_progress {
+            last_progress = progress;
+            asleep_since = None;
+            continue;
+        }
+        let os_tid = e.os_tids.get(holder).copied().unwrap_or(0);
+        drop(g);
+        if asleep_in_futex(os_tid) {
+            if asleep_since.is_none() {
+                asleep_since = Some(real_ms());
+            }
+        } else {
+            asleep_since = None;
+        }
+        // asleep in a futex for 25 ms of real time without a single scheduling step: blocked
+        if asleep_since.is_some_and(|t0| real_ms().saturating_sub(t0) >= 25) {
+            asleep_since = None;
+            let mut g = lock();
+            let e = g.as_mut().unwrap();
+            if e.turn == holder && e.steps == last_progress.1 && e.dead.is_none() {
+                e.states[holder] = TState::ExtBlocked;
+                e.ext_blocks += 1;
+                ARMED_ALL.store(true, Ordering::SeqCst);
+                match e.decide(None) {
+                    Some(next) => e.set_turn(next),
+                    None => e.set_turn(0),
+                }
+                CV.notify_all();
             }
         }
-        g = match CV.wait(g) {
-            Ok(g) => g,
-            Err(p) => p.into_inner(),
-        };
     }
 }
 
@@ -452,11 +607,18 @@ fn block_on(me: usize, name: &'static str, mut g: std::sync::MutexGuard<'static,
     e.states[me] = TState::Blocked(name);
     match e.decide(None) {
         Some(next) => {
-            e.turn = next;
+            e.set_turn(next);
             CV.notify_all();
-            wait_turn(me, g);
+            drop(wait_turn(me, g));
         }
         None => {
+            if e.states.iter().any(|s| *s == TState::ExtBlocked) {
+                // somebody is asleep in the kernel and may still come back: wait for that
+                e.set_turn(0);
+                CV.notify_all();
+                drop(wait_turn(me, g));
+                return;
+            }
             let msg = e.describe_deadlock();
             die(g, msg);
         }
@@ -480,7 +642,7 @@ pub fn rw_acquire(name: &'static str, write: bool) -> bool {
     sched_point();
     let mut waited = false;
     loop {
-        let mut g = lock();
+        let mut g = enter(me);
         let e = g.as_mut().unwrap();
         if !e.rw.iter().any(|(n, _)| *n == name) {
             e.rw.push((name, RwState::default()));
@@ -519,7 +681,7 @@ pub fn rw_release(name: &'static str) {
         return;
     }
     {
-        let mut g = lock();
+        let mut g = enter(me);
         let e = g.as_mut().unwrap();
         if let Some((_, st)) = e.rw.iter_mut().find(|(n, _)| *n == name) {
             if st.writer == Some(me) {
@@ -542,7 +704,7 @@ pub fn once_enter(name: &'static str) -> bool {
     sched_point();
     let mut waited = false;
     loop {
-        let mut g = lock();
+        let mut g = enter(me);
         let e = g.as_mut().unwrap();
         if !e.once.iter().any(|(n, _)| *n == name) {
             e.once.push((name, None));
@@ -571,7 +733,7 @@ pub fn once_exit(name: &'static str) {
         return;
     }
     {
-        let mut g = lock();
+        let mut g = enter(me);
         let e = g.as_mut().unwrap();
         if let Some((_, owner)) = e.once.iter_mut().find(|(n, _)| *n == name) {
             if *owner == Some(me) {
